@@ -1,67 +1,83 @@
 ------------------------------ MODULE MbiTrace ------------------------------
 (* TV form of C01.  One trace = one real image built by SPSDK for one (composition, abstract input).            *)
-(*   header trace : Build, ExpLen, ExpFlags, ExpW28, ExpLoad, ExpLayout              (clause HeaderDescribes)   *)
+(*   header trace : Build, ExpLen, ExpFlags, ExpW28, ExpLoad, ExpLayout [, ExpReloc]   (clause HeaderDescribes) *)
 (*   parse trace  : Build, ParseOk, ParseApp, ParseTz, ParseWords, ParseKs, ParseReloc, ParseMisc   (RoundTrip) *)
 (*                  ReObj, ReCfg                                                      (clause ReExport)         *)
-(* Every number in an event was read from the emitted bytes / the parsed object by the harness (struct, hashlib,*)
-(* a bit-serial CRC); every expected number is computed here from (cls, x).                                     *)
+(* Every number in an event was read from the emitted bytes / the parsed object by the harness (struct, byte    *)
+(* search, a table CRC); every expected number is computed here from (cls, x).                                   *)
+(* Verdicts are TOTAL: an event whose clause fails is reported (<<"REJ", id, index, len, event>>) and the trace   *)
+(* goes on, so every field is judged on its own; the two re-export events are judged only when everything read   *)
+(* back before them was right (they cannot be right otherwise).  A trace that is not consumed to its end (unknown *)
+(* event, malformed record) is reported as STUCK by the postcondition - that is a harness error.                 *)
 EXTENDS Mbi, Json, IOUtils
 Traces == ndJsonDeserialize(IOEnv.TRACE_FILE)
-VARIABLES tid, l
+VARIABLES tid, l, bad
 T == Traces[tid].ev
 E == T[l]
 Is(e) == l <= Len(T) /\ E.ev = e
-Adv == l' = l + 1 /\ UNCHANGED <<tid, cls, x>>
 Limbs(n) == <<n \div 65536, n % 65536>>
 I == Ivt(x)
 S == Final(x)
+Rej == PrintT(<<"REJ", Traces[tid].id, l, Len(T), E.ev>>)
+\* judge one event: report if the clause fails, remember it, go on
+Judge(ok) == /\ (IF ok THEN TRUE ELSE Rej)          \* IF, not \/ : a disjunction inside an action is explored on both sides
+             /\ bad' = (bad \/ ~ok)
+             /\ l' = l + 1 /\ UNCHANGED <<tid, cls, x>>
+\* judged only on an intact prefix
+JudgeIfIntact(ok) == /\ (IF bad \/ ok THEN TRUE ELSE Rej)
+                     /\ bad' = (bad \/ ~ok)
+                     /\ l' = l + 1 /\ UNCHANGED <<tid, cls, x>>
 
-TInit == /\ tid \in 1..Len(Traces) /\ l = 1
+TInit == /\ tid \in 1..Len(Traces) /\ l = 1 /\ bad = FALSE
          /\ cls = Traces[tid].cls /\ x = Traces[tid].x
          /\ TLCSet(tid, 1)
-\* the case must be one the algebra speaks about
-TBuild == Is("Build") /\ Modelled /\ InDomain(x) /\ HeaderDescribesOf(x) /\ RoundTripOf(x) /\ Adv
+\* the case must be one the algebra speaks about (a failure here is the harness's fault)
+TBuild == Is("Build") /\ Judge(Modelled /\ InDomain(x) /\ HeaderDescribesOf(x) /\ RoundTripOf(x))
 \* ---- HeaderDescribes on real bytes
-TExpLen   == Is("ExpLen") /\ E.len = Sum(S) /\ E.total = Limbs(I.total) /\ Adv
-TExpFlags == /\ Is("ExpFlags")
-             /\ E.type = I.type /\ E.tz = I.tz /\ E.sub = I.sub /\ E.hwKey = I.hwKey /\ E.ks = I.ks /\ E.reloc = I.reloc
-             /\ E.hasVer = I.hasVer /\ E.ver = (IF I.hasVer THEN I.ver ELSE 0) /\ E.rsvd = 0
-             /\ Adv
-TExpW28   == /\ Is("ExpW28")
-             /\ CASE I.w28 = "zero" -> E.w = <<0, 0>>
-                  [] I.w28 = "crc"  -> E.crcOk = TRUE
-                  [] I.w28 = "off"  -> E.w = Limbs(I.off) /\ \E k \in 1..Len(E.certAt) : E.certAt[k] = I.off + Shift(x)
-             /\ Adv
-TExpLoad  == Is("ExpLoad") /\ E.load = I.load /\ Adv
-TExpLayout == /\ Is("ExpLayout")
-              /\ LET W == Where(x) IN E.tz = W.tz /\ E.ks = W.ks /\ E.iv = W.iv /\ E.relhdr = W.relhdr /\ E.apptail = W.apptail
-              /\ Adv
+TExpLen   == Is("ExpLen") /\ Judge(E.len = Sum(S) /\ E.total = Limbs(I.total))
+TExpFlags == Is("ExpFlags") /\ Judge(
+               /\ E.type = I.type /\ E.tz = I.tz /\ E.sub = I.sub /\ E.hwKey = I.hwKey /\ E.ks = I.ks /\ E.reloc = I.reloc
+               /\ E.hasVer = I.hasVer /\ E.ver = (IF I.hasVer THEN I.ver ELSE 0) /\ E.rsvd = 0)
+TExpW28   == Is("ExpW28") /\ Judge(
+               CASE I.w28 = "zero" -> E.w = <<0, 0>>
+                 [] I.w28 = "crc"  -> E.crcOk = TRUE
+                 [] I.w28 = "off"  -> E.w = Limbs(I.off) /\ \E k \in 1..Len(E.certAt) : E.certAt[k] = I.off + Shift(x))
+TExpLoad  == Is("ExpLoad") /\ Judge(E.load = I.load)
+TExpLayout == Is("ExpLayout") /\ Judge(
+               LET W == Where(x) IN E.tz = W.tz /\ E.ks = W.ks /\ E.iv = W.iv /\ E.relhdr = W.relhdr /\ E.apptail = W.apptail)
+\* the relocation table describes where the images are: addresses count in the image without HMAC / key store (displacement rule)
+RelocBase == OffsetOf(Body(x), "reloc")
+ImgOff(k) == RelocBase + SumInts([j \in 1..(k - 1) |-> Pad4(x.relocs[j])])
+TExpReloc == Is("ExpReloc") /\ Judge(
+               IF ~Visible(x) THEN E.found = FALSE ELSE
+               /\ E.found = TRUE /\ Len(E.ents) = Len(x.relocs) /\ Len(E.imgAt) = Len(x.relocs)
+               /\ E.ptr = RelocBase + RelocImgs(x)
+               /\ E.hdrAt = E.ptr + RELENT * Len(x.relocs) + Shift(x)
+               /\ E.dstOk = TRUE
+               /\ \A k \in 1..Len(x.relocs) : /\ E.ents[k] = <<ImgOff(k), x.relocs[k], 1>>          \* source offset, exact size, LOAD flag
+                                              /\ E.imgAt[k] = ImgOff(k) + Shift(x))
 \* ---- RoundTrip on the parsed object
-TParseOk  == Is("ParseOk") /\ E.ok = TRUE /\ Adv
-TParseApp == /\ Is("ParseApp")
-             /\ E.len = App(x)
-             /\ \A k \in 1..Len(E.diffWords) : E.diffWords[k] \in RomWords       \* nothing but the four ROM-owned words may differ from the input
-             /\ E.romWordsZero = TRUE
-             /\ Adv
-TParseTz  == Is("ParseTz") /\ E.kind = x.tz /\ (x.tz = "custom" => E.dataEq = TRUE) /\ Adv
-TParseWords == /\ Is("ParseWords")
-               /\ E.load = I.load /\ E.imgVer = I.ver /\ E.sub = I.sub /\ E.hwKey = I.hwKey
-               /\ Adv
-TParseKs  == Is("ParseKs") /\ E.present = I.ks /\ (I.ks => E.dataEq = TRUE) /\ Adv
-TParseReloc == Is("ParseReloc") /\ E.sizes = x.relocs /\ (x.relocs # <<>> => E.dataEq = TRUE) /\ Adv
-TParseMisc == /\ Is("ParseMisc")
-              /\ E.fwVer = x.fwVer /\ E.digest = DigestLen(x)
-              /\ (Cert # "none" => E.certEq = TRUE) /\ (Layout = "enc" => E.ivEq = TRUE)
-              /\ Adv
+TParseOk  == Is("ParseOk") /\ Judge(E.ok = TRUE)
+TParseApp == Is("ParseApp") /\ Judge(
+               /\ E.len = App(x)
+               /\ \A k \in 1..Len(E.diffWords) : E.diffWords[k] \in RomWords       \* nothing but the four ROM-owned words may differ from the input
+               /\ E.romWordsZero = TRUE)
+TParseTz  == Is("ParseTz") /\ Judge(E.kind = x.tz /\ (x.tz = "custom" => E.dataEq = TRUE))
+TParseWords == Is("ParseWords") /\ Judge(E.load = I.load /\ E.imgVer = I.ver /\ E.sub = I.sub /\ E.hwKey = I.hwKey)
+TParseKs  == Is("ParseKs") /\ Judge(E.present = I.ks /\ (I.ks => E.dataEq = TRUE))
+TParseReloc == Is("ParseReloc") /\ Judge(E.sizes = x.relocs /\ (x.relocs # <<>> => E.dataEq = TRUE))
+TParseMisc == Is("ParseMisc") /\ Judge(
+               /\ E.fwVer = x.fwVer /\ E.digest = DigestLen(x)
+               /\ (Cert # "none" => E.certEq = TRUE) /\ (Layout = "enc" => E.ivEq = TRUE))
 \* ---- ReExport: same length, differences only inside signature fields (and what is computed over the ISK signature when it was re-made)
 DiffsInside(ranges) == \A k \in 1..Len(E.diffs) : Inside(E.diffs[k], ranges)
-TReObj == Is("ReObj") /\ E.ok = TRUE /\ E.len = Sum(S) /\ DiffsInside(SigRange(x)) /\ Adv
-TReCfg == Is("ReCfg") /\ E.ok = TRUE /\ E.len = Sum(S) /\ DiffsInside(SigRange(x) \cup IskRange(x)) /\ Adv
-TNext == TBuild \/ TExpLen \/ TExpFlags \/ TExpW28 \/ TExpLoad \/ TExpLayout
+TReObj == Is("ReObj") /\ JudgeIfIntact(E.ok = TRUE /\ E.len = Sum(S) /\ DiffsInside(SigRange(x)))
+TReCfg == Is("ReCfg") /\ JudgeIfIntact(E.ok = TRUE /\ E.len = Sum(S) /\ DiffsInside(SigRange(x) \cup IskRange(x)))
+TNext == TBuild \/ TExpLen \/ TExpFlags \/ TExpW28 \/ TExpLoad \/ TExpLayout \/ TExpReloc
          \/ TParseOk \/ TParseApp \/ TParseTz \/ TParseWords \/ TParseKs \/ TParseReloc \/ TParseMisc \/ TReObj \/ TReCfg
 Constr == IF TLCGet(tid) < l THEN TLCSet(tid, l) ELSE TRUE
 Post == \A i \in 1..Len(Traces) :
           \/ TLCGet(i) - 1 = Len(Traces[i].ev)
-          \/ PrintT(<<"REJ", Traces[i].id, TLCGet(i) - 1, Len(Traces[i].ev),
+          \/ PrintT(<<"STUCK", Traces[i].id, TLCGet(i) - 1, Len(Traces[i].ev),
                       Traces[i].ev[IF TLCGet(i) <= Len(Traces[i].ev) THEN TLCGet(i) ELSE Len(Traces[i].ev)].ev>>)
 =============================================================================
